@@ -532,6 +532,7 @@ class BT:
         self.n = 0
         self.tmps = 0                          # extra slots for local String objects
         self.params = params                   # source name -> (lean term, type)
+        self.depth, self.k_inl, self.src = 0, 0, None
         self.fmt = next((n for n, (_, ty) in params.items() if ty == "fmt"), None)
 
     def refuse(self, what):
@@ -575,6 +576,14 @@ class BT:
             if ty != "obj":
                 self.refuse("address-of other than `&emptyData` / `&<String>`")
             return t, "objptr"
+        if k == "cast" and e[1] in ("char*", "constchar*") and e[2][0] == "bin" and e[2][1] == "+" \
+                and e[2][2][0] == "cast" and e[2][2][1] == "byte*" and e[2][3] == ("sizeof", "Data"):
+            t, ty = self.ev(e[2][2][2], env, out, ind)
+            if ty != "dptr":
+                self.refuse("`(char*)((byte*)X + sizeof(Data))` with X not a Data*")
+            r = self.fresh()
+            out.append(f"{ind}let {r} ← charsOf s {t}")
+            return r, "cptr"
         if k == "cast":
             t, ty = self.ev(e[2], env, out, ind)
             want = CAST_TYPES[e[1]]
@@ -751,6 +760,12 @@ class BT:
             return v, vty
         if lhs[0] == "id" and lhs[1] in env and env[lhs[1]][1] in ("nat", "dptr", "cptr") and lhs[1] not in self.params:
             self.refuse(f"assignment to the local `{lhs[1]}` (locals are single-assignment in the subset)")
+        if lhs[0] == "arrow" and lhs[2] == "str":
+            p, pty = self.ev(lhs[1], env, out, ind)
+            if pty != "dptr" or vty != "cptr":
+                self.refuse("this store to `->str`")
+            out.append(f"{ind}let s ← setStr s {p} {v}")
+            return v, vty
         if lhs[0] == "arrow":
             p, pty = self.ev(lhs[1], env, out, ind)
             st = {"len": "setLen", "capacity": "setCap", "ref": "setRef"}.get(lhs[2])
@@ -786,8 +801,9 @@ class BT:
         return out + [f"{ind}if {self.as_cond(t, ty)} then"] + kthen(env, ind + "  ") + [f"{ind}else"] + kelse(env, ind + "  ")
 
     # ---- statements; `rest` follows (both branches of an `if` continue with it)
-    def is_alloc(self, s, nxt):
-        """`X = (Data*)new char[n];` / `Data* X = (Data*)new char[n];` followed by `X->str = (char*)((byte*)X + sizeof(Data));`"""
+    def is_alloc(self, s):
+        """`X = (Data*)new char[n];` / `Data* X = (Data*)new char[n];` (a store `X->str = (char*)((byte*)X + sizeof(Data))` must
+        follow somewhere: counted in the generated text)"""
         if s[0] == "decl" and s[1] == "dptr":
             target, init = ("id", s[2]), s[3]
         elif s[0] == "expr" and s[1][0] == "assign" and s[1][1] == ("id", "data"):
@@ -796,11 +812,60 @@ class BT:
             return None
         if not (init[0] == "cast" and init[1] == "Data*" and init[2][0] == "new"):
             return None
-        want = ("expr", ("assign", ("arrow", target, "str"),
-                         ("cast", "char*", ("bin", "+", ("cast", "byte*", target), ("sizeof", "Data")))))
-        if nxt != want:
-            self.refuse("`new` that is not followed by `X->str = (char*)((byte*)X + sizeof(Data));`")
         return target, init[2][1]
+
+    # ---- helper functions of the class (not in the table): inlined at statement level
+    PRIMS = {("detach", 2), ("Memory::copy", 3), ("Atomic::increment", 1), ("Atomic::decrement", 1), ("vsnprintf", 4)}
+
+    def helper_call(self, e):
+        return e is not None and e[0] == "call" and (e[1], len(e[2])) not in self.PRIMS and "::" not in e[1]
+
+    def rename(self, x, names, suf):
+        if isinstance(x, tuple):
+            if x and x[0] == "id" and x[1] in names:
+                return ("id", x[1] + suf)
+            if x and x[0] in ("decl",) and x[2] in names:
+                return ("decl", x[1], x[2] + suf, self.rename(x[3], names, suf))
+            return tuple(self.rename(y, names, suf) for y in x)
+        if isinstance(x, list):
+            return [self.rename(y, names, suf) for y in x]
+        return x
+
+    def has_return(self, x):
+        if isinstance(x, (tuple, list)):
+            if isinstance(x, tuple) and x and x[0] == "return":
+                return True
+            return any(self.has_return(y) for y in x)
+        return False
+
+    def inline(self, call):
+        """(statements, return expression or None) of the helper called by `call`, parameters bound as fresh locals"""
+        self.depth += 1
+        if self.depth > 12:
+            self.refuse("helper calls nested too deeply")
+        name, args = call[1], call[2]
+        params, stmts, rty = find_helper(self.src, name, len(args), self.fn)
+        rete = None
+        if stmts and stmts[-1][0] == "return":
+            rete = stmts[-1][1]
+            stmts = stmts[:-1]
+        if self.has_return(stmts):
+            self.refuse(f"helper `{name}` with a `return` that is not its last statement")
+        if (rete is None) != (rty == "void"):
+            self.refuse(f"helper `{name}`: return type and return statement disagree")
+        names = {n for n, _ in params}
+        def locals_of(x):
+            if isinstance(x, tuple) and x and x[0] in ("decl", "declvar", "declobj", "declref"):
+                self.refuse(f"helper `{name}` with this declaration") if x[0] != "decl" else names.add(x[2])
+            if isinstance(x, (tuple, list)):
+                for y in x:
+                    locals_of(y)
+        locals_of(stmts)
+        self.k_inl += 1
+        suf = f"__{self.k_inl}"
+        out = [("decl", ty, n + suf, a) for (n, ty), a in zip(params, args)]
+        out += self.rename(stmts, names, suf)
+        return out, (self.rename(rete, names, suf) if rete is not None else None)
 
     def leave(self, env, ind, objs, value=None):
         out = []
@@ -820,7 +885,20 @@ class BT:
         k = s[0]
         if k == "block":
             return self.run(list(s[1]) + rest, env, ind, objs, ret)
-        al = self.is_alloc(s, rest[0] if rest else None)
+        # helper calls: `f(..);`  `return f(..);`  `X = f(..);`  `T x = f(..);`
+        if k == "expr" and self.helper_call(s[1]):
+            st, _ = self.inline(s[1])
+            return self.run(st + rest, env, ind, objs, ret)
+        if k == "return" and self.helper_call(s[1]):
+            st, e = self.inline(s[1])
+            return self.run(st + [("return", e)] + rest, env, ind, objs, ret)
+        if k == "expr" and s[1][0] == "assign" and self.helper_call(s[1][2]):
+            st, e = self.inline(s[1][2])
+            return self.run(st + [("expr", ("assign", s[1][1], e))] + rest, env, ind, objs, ret)
+        if k == "decl" and self.helper_call(s[3]):
+            st, e = self.inline(s[3])
+            return self.run(st + [("decl", s[1], s[2], e)] + rest, env, ind, objs, ret)
+        al = self.is_alloc(s)
         if al is not None:
             target, size = al
             out = []
@@ -837,7 +915,7 @@ class BT:
                 if target[1] in env:
                     self.refuse(f"`{target[1]}` declared twice")
                 env2[target[1]] = (p, "dptr")
-            return out + self.run(rest[1:], env2, ind, objs, ret)
+            return out + self.run(rest, env2, ind, objs, ret)
         if k == "decl":
             cty, name, e = s[1], s[2], s[3]
             if name in env or name in ("data", "this"):
@@ -931,6 +1009,32 @@ class BT:
         self.refuse(f"statement `{k}`")
 
 
+def find_helper(src, name, nargs, fn):
+    """a member function of String.hpp that is not in the table: (params, statements, return type)"""
+    found = []
+    for m in re.finditer(r"(?:static\s+)?((?:const\s+)?(?:void|usize|bool|Data\s*\*|char\s*\*))\s*" + re.escape(name) +
+                         r"\s*\(([^)]*)\)\s*(?:const\s*)?\{", src):
+        plist = [p.strip() for p in m.group(2).split(",") if p.strip()]
+        if len(plist) != nargs:
+            continue
+        params = []
+        for prm in plist:
+            mm = re.fullmatch(r"(?:const\s+)?(usize|char\s*\*|Data\s*\*)\s*(?:const\s+)?(\w+)", prm)
+            if not mm:
+                raise Untranslatable(f"{fn}: helper `{name}`: parameter `{prm}`")
+            params.append((mm.group(2), {"usize": "nat"}.get(mm.group(1), "cptr" if "char" in mm.group(1) else "dptr")))
+        end = balanced(src, m.end() - 1)
+        found.append((params, src[m.end():end - 1], re.sub(r"\s+", "", m.group(1))))
+    if len(found) != 1:
+        raise Untranslatable(f"{fn}: call of `{name}` with {nargs} argument(s): {len(found)} definitions found in String.hpp")
+    params, body, rty = found[0]
+    p = BP(btokenize(body, name), name)
+    stmts = p.stmts()
+    if p.peek() is not None:
+        raise Untranslatable(f"{name}: trailing tokens")
+    return params, stmts, rty
+
+
 P_STR = r"const\s+String\s*&\s*(\w+)"
 BODY_FUNCS = [
     # lean name, signature regex (groups = parameter names), parameter types, kind of return value, C++ name
@@ -975,7 +1079,10 @@ def generate_body(repo):
             raise Untranslatable(f"{cname}: parameter names {names}")
         params = {n: (("out" if ty == "fmt" else f"p_{n}"), ty) for n, ty in zip(names, ptys)}
         tr = BT(cname, params, known)
+        tr.src = hpp
         lines = tr.run(stmts, dict(params), "  ", [], ret)
+        if sum("← newData " in l for l in lines) != sum("← setStr " in l for l in lines):
+            raise Untranslatable(f"{cname}: a `new` without `X->str = (char*)((byte*)X + sizeof(Data))` (or the reverse)")
         sig = "(s : St) (this : Nat)" + "".join((" (out : List Nat)" if ty == "fmt" else f" (p_{n} : {LEAN_TY[ty]})") for n, ty in zip(names, ptys))
         sig += "".join(f" (tmp{i + 1} : Nat)" for i in range(tr.tmps))
         rty = {"int": "Option (St × Int)", "nat": "Option Nat", "bool": "Option Bool"}.get(ret, "Option St")
